@@ -21,11 +21,9 @@ JUDGE_CFG, TRACE_CFG = "OsmCoreJudge.cfg", "OsmCoreTrace.cfg"
 MC_QUICK = [("OsmCore_mc_q_containers.cfg", 3), ("OsmCore_mc_q_change.cfg", 3), ("OsmCore_mc_q_tags.cfg", 1), ("OsmCore_mc_q_refs.cfg", 1)]
 MC_THOROUGH = [("OsmCore_mc_t_containers.cfg", 4), ("OsmCore_mc_t_change.cfg", 4), ("OsmCore_mc_t_tags.cfg", 3), ("OsmCore_mc_t_refs.cfg", 4)]
 
-# walks: (profile, sequence length, behaviours quick, behaviours thorough)
-WALKS = [("mixed", 8, 150, 1500), ("mixed", 12, 40, 600), ("containers", 10, 90, 900), ("change", 10, 90, 900),
-         ("tags", 8, 50, 400), ("refs", 6, 40, 300)]
+WALKS = {"quick": 460, "thorough": 4600}      # behaviours of tlc -simulate (call mixes and lengths: OsmCoreGen!Plans)
 ALL_LEN = {"quick": 2, "thorough": 3}
-GROUP = 40           # sequences per trace-validation run
+GROUP = {"quick": 110, "thorough": 160}     # sequences per trace-validation run (few, larger TLC runs: start-up and slot waits dominate)
 
 MUTATING = {"append", "sort", "docds", "chgds", "tagsort"}
 
@@ -71,20 +69,18 @@ def _gen_run(ctx, tag, cfgtext, args):
 
 
 def generate(ctx):
-    q = ctx.quick()
-    jobs = [("all%d" % ALL_LEN[ctx.tier], _gen_cfg("OsmCoreGen_all.cfg", SeqLen=str(ALL_LEN[ctx.tier]), MaxOps=str(ALL_LEN[ctx.tier])), [])]
-    for i, (prof, ln, nq, nt) in enumerate(WALKS):
-        n = nq if q else nt
-        jobs.append(("%s%d" % (prof, ln), _gen_cfg("OsmCoreGen_walk.cfg", SeqLen=str(ln), Profile='"%s"' % prof),
-                     ["-simulate", "num=%d" % n, "-depth", str(ln + 2), "-seed", str(ctx.seed * 100 + i)]))
+    jobs = [("all%d" % ALL_LEN[ctx.tier], _gen_cfg("OsmCoreGen_all.cfg", SeqLen=str(ALL_LEN[ctx.tier]), MaxOps=str(ALL_LEN[ctx.tier])), []),
+            ("walk", _gen_cfg("OsmCoreGen_walk.cfg"), ["-simulate", "num=%d" % WALKS[ctx.tier], "-depth", "16", "-seed", str(ctx.seed)])]
     with cf.ThreadPoolExecutor(max_workers=4) as ex:
         res = list(ex.map(lambda j: _gen_run(ctx, *j), jobs))
     cases, fam = [], {}
     for tag, cs in res:
         # the same sequence may be walked twice: keep one copy per family, in a deterministic order
-        uniq = sorted({json.dumps(c, sort_keys=True) for c in cs})
-        fam[tag] = len(uniq)
-        cases += [dict(json.loads(u), fam=tag) for u in uniq]
+        uniq = [json.loads(u) for u in sorted({json.dumps(c, sort_keys=True) for c in cs})]
+        for c in uniq:
+            key = c["fam"] if tag == "walk" else tag
+            fam[key] = fam.get(key, 0) + 1
+        cases += uniq
     return cases, fam
 
 
@@ -96,7 +92,7 @@ def execute(ctx, cases):
 
 
 def judge(ctx, recs, shards=None):
-    shards = shards or max(1, min(8, len(recs) // 60))
+    shards = shards or max(1, min(8, len(recs) // 150))
     return vlib.tlc_judge(ctx, JUDGE, JUDGE_CFG, recs, shards=shards)
 
 
@@ -125,7 +121,8 @@ def _trace_run(ctx, tag, lines):
 
 def validate_traces(ctx, recs, idxs):
     """recs[i]["got"] = steps of sequence i.  Returns (accepted indices, [(index, step, kind)], unvalidated indices)."""
-    groups = [idxs[i:i + GROUP] for i in range(0, len(idxs), GROUP)]
+    gs = GROUP[ctx.tier]
+    groups = [idxs[i:i + gs] for i in range(0, len(idxs), gs)]
 
     def one(kg):
         k, g = kg
@@ -303,12 +300,12 @@ def run(ctx):
             vlib.log("  failing sequence: %s" % describe(rp["case"]))
         return finish_mc()
 
-    # ---- binding self-test
-    selftest(ctx, recs)
-    T("binding self-test")
-
-    # ---- C -> S
+    # ---- binding self-test (runs next to the trace validation) and C -> S
+    st_pool = cf.ThreadPoolExecutor(max_workers=1)
+    st_future = st_pool.submit(selftest, ctx, recs)
     acc, rej, unval = validate_traces(ctx, recs, list(range(len(recs))))
+    st_future.result()
+    st_pool.shutdown()
     ctx.traces = len(acc)
     ctx.tlc_runs.append({"module": TRACE, "cfg": TRACE_CFG, "sequences": len(recs), "accepted": len(acc), "rejected": len(rej),
                          "lines": steps + len(recs)})
